@@ -1,0 +1,28 @@
+//go:build verif
+
+package adderutils
+
+// Contracts for the govc verifier (/verif). Comment-only.
+
+// ---- "the response body is a single JSON document" (the /add endpoint of the REST API and of the proxy) ----
+//@ ghost var httpResponses int
+//@ ghost var httpLastStatus int
+//@ ghost var httpDocs int
+
+//@ extern http.ResponseWriter.WriteHeader(statusCode)
+//@   ensures httpResponses == old(httpResponses) + 1 && httpLastStatus == statusCode
+//@   modifies httpResponses, httpLastStatus
+
+//@ extern json.Encoder.Encode(v)
+//@   ensures httpDocs == old(httpDocs) + 1
+//@   modifies httpDocs
+
+// buffered (non-streaming) mode: one status line and one JSON document, 500 with the error or 200 with the list;
+// streaming mode: one 200 status line (the documents are written by the streaming goroutine, which is dropped)
+//@ func AddMultipartHTTPHandler
+//@   property C11
+//@   requires params != nil
+//@   ensures [buffered-one-status-one-document] !params.StreamChannels ==> httpResponses == old(httpResponses) + 1 && httpDocs == old(httpDocs) + 1
+//@   ensures [buffered-status] !params.StreamChannels ==> httpLastStatus == ite(err != nil, 500, 200)
+//@   ensures [stream-one-status] params.StreamChannels ==> httpResponses == old(httpResponses) + 1 && httpLastStatus == 200
+//@   modifies httpResponses, httpLastStatus, httpDocs
